@@ -469,7 +469,7 @@ def _play(seq, root, Sv, Wire, dumps, loads):
 
 
 @harness(['C15'], 'supp.server.Server.run / process over the real codec [request sequences]',
-         bounded='every sequence of 1 and 2 requests, and every failing request followed by two good ones, over 11 request kinds (4 that succeed; unknown '
+         bounded='every sequence of 1 and 2 requests, and every failing request followed by two good ones, over 16 request kinds (4 that succeed; non-ASCII text in a source, a result and a message; run and process asked for as requests; unknown '
                  'method, wrong arguments, exception, unserialisable result (flat and nested), syntax error in the request, an exception whose str() raises); '
                  'a result with nested tuples as map keys; 6 configure requests (2 valid, 4 failing: bad dyn_modules, no sources, not a map, wrong arguments) '
                  'before and between 3 questions whose answer depends on the configured source roots (71 sequences of 2 to 4 requests)')
